@@ -14,6 +14,7 @@ import GFO.Model.GridBackend
 import GFO.Model.Population
 import GFO.Model.Evolution
 import GFO.Model.Pattern
+import GFO.Model.Powell
 open GFO GFO.Proto
 
 /-- one recorded backend interaction of the real run -/
@@ -54,6 +55,7 @@ structure Script where
   grid : Option (GridCfg × GridSt) := none      -- when present: the complete grid search model (GFO.Model.GridBackend)
   pt : Option (PopCfg × GASt) := none           -- when present: a complete population model (GFO.Model.Population / Evolution)
   pat : Option (PatCfg × PatSt) := none         -- when present: the complete pattern search model (GFO.Model.Pattern)
+  pow : Option (PowCfg × PowSt) := none         -- when present: the complete Powell's method model (GFO.Model.Powell)
 deriving Inhabited
 
 def Script.raisesNow (s : Script) : Bool := match s.queue with
@@ -125,7 +127,7 @@ def backendPop : Backend Script where
     | none => scripted.finishInit s
 
 /-- … and the complete pattern search model -/
-def backendOf : Backend Script where
+def backendPat : Backend Script where
   initPos s := match s.pat with
     | some (cfg, g) => ((patBackend cfg).initPos g).map (fun x => (x.1, { s with pat := some (cfg, x.2) }))
     | none => backendPop.initPos s
@@ -141,6 +143,24 @@ def backendOf : Backend Script where
   finishInit s := match s.pat with
     | some (cfg, g) => ((patBackend cfg).finishInit g).map (fun g' => { s with pat := some (cfg, g') })
     | none => backendPop.finishInit s
+
+/-- … and the complete Powell's method model -/
+def backendOf : Backend Script where
+  initPos s := match s.pow with
+    | some (cfg, g) => ((powBackend cfg).initPos g).map (fun x => (x.1, { s with pow := some (cfg, x.2) }))
+    | none => backendPat.initPos s
+  iterate s := match s.pow with
+    | some (cfg, g) => ((powBackend cfg).iterate g).map (fun x => (x.1, { s with pow := some (cfg, x.2) }))
+    | none => backendPat.iterate s
+  evalInit s x := match s.pow with
+    | some (cfg, g) => ((powBackend cfg).evalInit g x).map (fun g' => { s with pow := some (cfg, g') })
+    | none => backendPat.evalInit s x
+  evaluate s x := match s.pow with
+    | some (cfg, g) => ((powBackend cfg).evaluate g x).map (fun g' => { s with pow := some (cfg, g') })
+    | none => backendPat.evaluate s x
+  finishInit s := match s.pow with
+    | some (cfg, g) => ((powBackend cfg).finishInit g).map (fun g' => { s with pow := some (cfg, g') })
+    | none => backendPat.finishInit s
 
 def showTracker (t : Tracker) : String :=
   s!"new={showOpt showPos t.posNew}:{showF t.scoreNew} cur={showOpt showPos t.posCurrent}:{showF t.scoreCurrent} " ++
@@ -199,7 +219,10 @@ def flushTape (m : M) : M :=
     | none, some (cfg, g), _, _ => { b with grid := some (cfg, { g with tape := g.tape ++ es }) }
     | none, none, some (cfg, g), _ => { b with pt := some (cfg, { g with pop := { g.pop with tape := g.pop.tape ++ es } }) }
     | none, none, none, some (cfg, g) => { b with pat := some (cfg, { g with tape := g.tape ++ es }) }
-    | none, none, none, none => b
+    | none, none, none, none =>
+      match b.pow with
+      | some (cfg, g) => { b with pow := some (cfg, { g with tape := g.tape ++ es }) }
+      | none => b
   { m with d := { m.d with bst := b' }, pending := #[] }
 
 /-- run the pending call; output = one line per step of this call, then the result line -/
@@ -242,6 +265,7 @@ def pDraw (nd : Nat) : P Draw := do
   | "h" => do let l ← pList pNat; pure (Draw.choice l)
   | "m" => do let v ← pN nd pF; pure (Draw.mutant v)
   | "g" => do let l ← pList pNat; pure (Draw.parents l)
+  | "I" => do let l ← pList (pN nd pInt); pure (Draw.inits l)
   | k => throw s!"draw? {k}"
 
 def showNatLists (l : List (List Nat)) : String := showList (showList toString) l
@@ -406,6 +430,23 @@ def exec (m : M) (cmd : String) : P (M × List String) := do
     | some (_, g) =>
       pure (m, [s!"tracker {showTracker g.tr}", s!"pattern {showList showPos g.pattern} iter={showBool g.iterState} tapeLeft={g.tape.length}"])
     | none => pure (m, ["err:no-pattern-backend"])
+  | "wnew" => do
+    let nInits ← pNat
+    let ipd ← pNat
+    let nNb ← pNat
+    let rrp ← pRat
+    let initL ← pList (pN m.sp.dims.length pInt)
+    let cfg : PowCfg := { itersPDim := ipd, nNeighbours := nNb, randRestP := rrp, sizes := m.sp.sizes, geo := m.sp.geo }
+    pure ({ m with d := { nInits := nInits, bst := { pow := some (cfg, { initL := initL }) } }, call := none, warm := [], steps := #[], byCall := #[], pending := #[] }, ["ok"])
+  | "wstate" =>
+    match m.d.bst.pow with
+    | some (_, g) =>
+      pure (m, [s!"tracker {showTracker g.tr}",
+                s!"powell nthIter={g.nthIter} curDimIter={g.nthIterCurDim} dim={g.curDim} pos={showPos g.powellsPos} tapeLeft={g.tape.length}",
+                match g.hc with
+                | some h => s!"inner {showTracker h.tr}"
+                | none => "inner None"])
+    | none => pure (m, ["err:no-powell-backend"])
   | "lstep" => do
     let dur ← pRat; let r ← pRes
     pure ({ m with steps := m.steps.push (r, dur) }, [])
